@@ -10,6 +10,8 @@ import sys
 
 ROOT = os.path.dirname(os.path.dirname(os.path.abspath(__file__)))
 SEEDED = os.path.join(ROOT, "seeded")
+# delivered changes that were examined and NOT kept, with the reason (see DESIGN.md §7.7)
+REJECTED = {("C19", 8): "does not break the property as stated: one call fails on a stale connection, the next recovers"}
 
 
 def parse_results(paths):
@@ -58,6 +60,9 @@ def main():
             patch, demo, meta, conf = (os.path.join(out, f"{k}{n}.{e}") for k, e in (("patch", "diff"), ("demo", "rs"), ("meta", "json"), ("confirm", "json")))
             if not all(os.path.exists(x) for x in (patch, demo, meta, conf)):
                 continue
+            if (pid, n) in REJECTED:
+                print(f"{pid}-{n}: NOT kept ({REJECTED[(pid, n)]})")
+                continue
             c = json.load(open(conf))
             ok = (c.get("applies") and c.get("build_default_ok") == 1 and c.get("build_features_ok") == 1
                   and c.get("baseline_passed_failed") == "213 0" and c.get("demo_exit_with_patch") not in (0, None)
@@ -73,12 +78,18 @@ def main():
             os.makedirs(d, exist_ok=True)
             shutil.copy(patch, os.path.join(d, "patch.diff"))
             shutil.copy(demo, os.path.join(d, f"demo_{pid}_{n}.rs"))
-            history = runs.get((pid, n), [])
-            last_per_check = {}
+            history = [r for r in runs.get((pid, n), []) if r["verdict"] in ("HELD", "VIOLATED")]
+            # the logs of the two queue daemons are not in time order; a check only ever gains workloads, so per check the
+            # HELD runs (before a strengthening) precede the VIOLATED ones
+            history.sort(key=lambda r: (r["check"] != pid, r["verdict"] == "VIOLATED"))
+            by_check = {}
             for r in history:
-                last_per_check[r["check"]] = r
-            catching = [r for r in last_per_check.values() if r["verdict"] == "VIOLATED"]
+                by_check.setdefault(r["check"], []).append(r)
+            catching = [next(x for x in rs if x["verdict"] == "VIOLATED") for rs in by_check.values() if any(x["verdict"] == "VIOLATED" for x in rs)]
+            catching.sort(key=lambda r: r["check"] != pid)
             final = catching[0] if catching else (history[-1] if history else {"verdict": "not run", "signatures": [], "check": pid})
+            own = by_check.get(final.get("check"), [])
+            first_missed = any(x["verdict"] == "HELD" for x in own) and final["verdict"] == "VIOLATED"
             rec = {
                 "property": pid,
                 "summary": m.get("summary"),
@@ -100,7 +111,7 @@ def main():
                                 "verdict": r["verdict"], "signatures": r["signatures"][:8]} for r in history],
                 "detected_by_quick_check": final["verdict"] == "VIOLATED",
                 "detected_by": final.get("check") if final["verdict"] == "VIOLATED" else None,
-                "first_run_missed_then_check_strengthened": len(history) > 1 and history[0]["verdict"] == "HELD" and final["verdict"] == "VIOLATED",
+                "first_run_missed_then_check_strengthened": first_missed,
             }
             json.dump(rec, open(os.path.join(d, "meta.json"), "w"), indent=1)
             kept += 1
